@@ -89,6 +89,27 @@ Proof.
     eapply Sub'_trans; eauto. now right.
 Qed.
 
+Lemma var_inv G i T : has_ty G (Var i) T -> exists T0, nth_error G i = Some T0 /\ Sub' T0 T.
+Proof.
+  intros D. remember (Var i) as e eqn:Ee. revert Ee.
+  induction D as [G0 i' T1 E|G0 s T1 E|G0 o' T1 E|G0 f x A B Df IHf Dx IHx|G0 b0 A B D0 IH0|G0 e S T1 D0 IH S0];
+    intros Ee; try discriminate.
+  - injection Ee as ->. exists T1. split; auto. now left.
+  - destruct (IH Ee) as (T0 & O & S1). exists T0. split; auto.
+    eapply Sub'_trans; eauto. now right.
+Qed.
+
+Lemma app_inv G f x T : has_ty G (App f x) T ->
+  exists A B, has_ty G f (arrow A B) /\ has_ty G x A /\ Sub' B T.
+Proof.
+  intros D. remember (App f x) as e eqn:Ee. revert Ee.
+  induction D as [G0 i' T1 E|G0 s T1 E|G0 o' T1 E|G0 f0 x0 A B Df IHf Dx IHx|G0 b0 A B D0 IH0|G0 e S T1 D0 IH S0];
+    intros Ee; try discriminate.
+  - injection Ee as -> ->. exists A, B. repeat split; auto. now left.
+  - destruct (IH Ee) as (A & B & Df & Dx & S1). exists A, B. repeat split; auto.
+    eapply Sub'_trans; eauto. now right.
+Qed.
+
 (* ---- renaming and substitution ---------------------------------------- *)
 
 Lemma ren_ty G t T : has_ty G t T -> forall D xi,
@@ -146,6 +167,11 @@ Proof.
   intros V I o b Lo. destruct (I _ _ Lo) as [T O].
   exact (has_ty_closed _ _ _ (V _ _ Lo _ O)).
 Qed.
+
+(* The pinned validate() (expr.py:113 before the repair) compares the other
+   way round: the DECLARED type must be a subtype of the inferred one. *)
+Definition validates_pinned : Prop :=
+  forall o b, L o = Some b -> forall T, opty o T -> exists T', has_ty [] b T' /\ Sub' T T'.
 
 Hypothesis V : validates.
 
